@@ -116,6 +116,7 @@ Definition step (maxttl : Z) (s : state) (o : op) : state * res :=
   | OReset => (reset s, RUnit)
   | OAdvance d => (advance s d, RUnit)
   | OKeys => (s, RKeys (sortZ (keys (smap s))))
+  | OStop => (s, RUnit)   (* Stop touches stopped / stopCh / runningCh only (section 3) *)
   end.
 
 (* run a chronological list of operations; results in the same order *)
